@@ -13,7 +13,7 @@ def chain_for(r, coin, n):
 
 def explore(ck):
     r = ck.rng; quick = ck.tier == 'quick'
-    ck.rule = ('bounded-exhaustive: every chain length T+1 (T <= %d) x every accepted (--start s, --end e) incl. absent, e below/at/above the tip, s up to T, '
+    ck.rule = ('bounded-exhaustive: every chain length T+1 (T <= %d) x every accepted (--start s, --end e) incl. absent, e below/at/above the tip (also 2^31..2^64-1), s up to T, '
                'x 5 callbacks (callback rotates per (T,s,e) in the quick tier, all five in the thorough tier) x --verify on/off; plus high-height windows, windows whose index has no record below --start, directories whose blk file with the blocks below --start is missing or cut off, indexes with header-only records above the tip and header-only/stale siblings (sorting before the active block) at occupied heights, equal-sized blocks stored out of order over two files (a block of one file at the offset where the other file was left), chains of 140..520 blocks and blocks ping-ponging between two blk files '
                '(multi-byte VarInt heights). Non-trivial: s > 0 or e <= T (a bound cuts the chain); distinct by (T,s,e,callback).' % (4 if quick else 9))
     cases = []; expect = {}
@@ -35,6 +35,11 @@ def explore(ck):
         coin = r.choice(gen.ALL_COINS); blocks = chain_for(r, coin, T + 1)
         c = Case('beyond_T%d_s%d_e%s' % (T, s_, e_), coin).simple_layout(blocks); c.start = s_; c.end = e_; c.in_domain = False
         c.meta['cbs'] = ['csv', 'unspent']; c.meta['T'] = T; expect[c.id] = []; cases.append(c)
+    # --end far above the tip (2^31 .. 2^64-1): the range is s..T whatever the distance
+    for k4, e_ in enumerate([2**31, 2**32, 2**48, 2**63, 2**64 - 1]):
+        T = 3; coin = gen.ALL_COINS[k4 % 8]; blocks = chain_for(r, coin, T + 1); s_ = k4 % 3
+        c = Case('hugeend%d' % k4, coin).simple_layout(blocks); c.start = s_; c.end = e_; c.meta['cbs'] = ['csv', 'unspent']; c.meta['T'] = T
+        expect[c.id] = list(range(s_, T + 1)); cases.append(c)
     # outside the property's quantifier, for the correspondence only: rejected ranges (--start >= --end) and an index with a hole in the heights (the loop ends at the hole)
     for T, s_, e_ in [(3, 2, 2), (3, 3, 1), (0, 0, 0)]:
         coin = r.choice(gen.ALL_COINS); blocks = chain_for(r, coin, T + 1)
